@@ -65,6 +65,17 @@ with ThreadPoolExecutor(jobs) as ex:
     res = list(ex.map(one, todo))
 # evidence files were rewritten by the audit runs against scratch trees: restore the committed ones
 pass  # evidence of /repo is untouched: audit runs write to VERIF_EVIDENCE_DIR
+if seeded and "--write" in sys.argv:
+    # record the latest verdict of every audited check in the seeded change's meta.json
+    byname = {}
+    for pid, name, verdict, dt, info in res:
+        byname.setdefault(name, {})[pid] = {"verdict": verdict, "wall_s": round(dt, 1), "first_mechanism": info}
+    head = subprocess.check_output(["git", "-C", "/repo", "rev-parse", "--short", "HEAD"], text=True).strip()
+    for name, r in byname.items():
+        mp = os.path.join(ROOT, "seeded", name, "meta.json")
+        m = json.load(open(mp))
+        m["check_results_latest"] = {"repo_head": head, "results": r}
+        json.dump(m, open(mp, "w"), indent=1)
 w = max([len(r[1]) for r in res] + [10])
 for pid, name, verdict, dt, info in res:
     print("%-4s %-*s %-12s %5.0fs  %s" % (pid, w, name, verdict, dt, info))
